@@ -1303,8 +1303,12 @@ static void canned(const std::string &name, const Node &nd, bool interp, std::ve
             // the seam rule applies as soon as |du| > pi although the way round the strip is shorter
             v.push_back({"canned-seam", fixed({-1.6, 1.0}, {0.0, 1.0}, {1.6, 1.0}), true});
         if (name == "KleinBottle")
+        {
             v.push_back({"canned-seam", fixed({0.84378344565990548, -1.14993555996039}, {2.7003753826406718, 0.78897392301132907},
                                               {2.2824003755718278, 0.63740066016610042}), true});
+            // u = 0 and u = pi are both in bounds and glued with v reversed: two representations of one point
+            v.push_back({"canned-glued", fixed({0.0, -1.1780972450961724}, {PI, -1.9634954084936207}, {1.0, 0.0}), true});
+        }
         if (name == "Sphere" || name == "SphereR3")
         {
             // float haversine next to an antipode: two states 1e-9 apart, distances to a third differ by ~7e-4 x radius
@@ -1317,7 +1321,8 @@ static void canned(const std::string &name, const Node &nd, bool interp, std::ve
         }
         if (name == "Dubins" || name == "DubinsSym")
         {
-            v.push_back({"canned-far", fixed({-3, -3, 0}, {4, -4, -PI}, {-3, 0, -PI}), true});
+            // opposite corners, headings pointing away from each other: longer than the reported extent
+            v.push_back({"canned-far", fixed({4, 4, 1.3272836507597869}, {-4, -4, -2.2481230820020652}, {0, 0, 0}), true});
             // same position, headings 2e-9 apart: below the internal DUBINS_EPS
             v.push_back({"canned-heading", fixed({4, 4, 0.43893147294306978}, {4, 4, 0.43893147494306983}, {0, 0, 0}), true});
         }
